@@ -28,7 +28,11 @@ type ctx struct {
 func (c *ctx) emit(cmd, args, impl string) {
 	fmt.Fprintf(c.w, "%s\t%s\t%s\n", cmd, args, impl)
 	if len(c.samples) < 6 || (c.n%997 == 0 && len(c.samples) < 12) {
-		c.samples = append(c.samples, cmd+" "+args+" => "+impl)
+		s := cmd + " " + args + " => " + impl
+		if len(s) > 400 {
+			s = s[:400] + "...(" + fmt.Sprint(len(s)) + " chars)"
+		}
+		c.samples = append(c.samples, s)
 	}
 	c.n++
 }
@@ -42,7 +46,14 @@ func main() {
 	tier := flag.String("tier", "quick", "quick|thorough")
 	out := flag.String("out", "", "output directory")
 	prop := flag.String("prop", "", "property id (lower case)")
+	zlibd := flag.Bool("zlibd", false, "serve deflate/inflate requests on stdin/stdout (oracle for the model)")
+	replay := flag.String("replay", "", "replay file")
 	flag.Parse()
+	_ = replay
+	if *zlibd {
+		serveZlib()
+		return
+	}
 	f, ok := props[*prop]
 	if !ok {
 		fmt.Fprintf(os.Stderr, "unknown property %q\n", *prop)
